@@ -15,10 +15,10 @@ def main(mod, patch, flt=None):
     try:
         from vlib.check import run_programs
         m = importlib.import_module('contracts.' + mod)
-        progs = m.programs('quick') if hasattr(m, 'programs') else m.PROGRAMS
+        progs = m.programs(os.environ.get('VERIF_TIER', 'quick')) if hasattr(m, 'programs') else m.PROGRAMS
         if flt: progs = [p for p in progs if flt in repr(p)]
         t0 = time.time()
-        res = run_programs('contracts.' + mod, progs, repo=os.environ.get('PYTOUGH_REPO', '/repo'), timeout_ms=30000)
+        res = run_programs('contracts.' + mod, progs, repo=os.environ.get('PYTOUGH_REPO', '/repo'), timeout_ms=30000 if os.environ.get('VERIF_TIER', 'quick') == 'quick' else 120000)
         n = bad = 0
         for r in res:
             if r['error']: print('ERR', r['program'], r['arg'], r['error'][-400:])
